@@ -29,24 +29,40 @@ from . import common as C
 
 PROP = "C08"
 MODEL = "Streams"
+COQ_IMPORTS = ("From SFV Require Import StreamParse StreamCodecs StreamCases.",)
+CHECK_FN = "check_xcase"
+BYTES_LIMIT = 6000          # artefacts up to this many characters go to the model's readers / writers as bytes
 SHARD = 60
 CASE_TIMEOUT = 240
 RULE = ("recipe cases: 1-4 tables, heterogeneous templates per table, friends, hidden fields/tables, update keys, "
         "references, typed values (bool, None, date, datetime +-microseconds +-offset, Decimal, ints up to and beyond "
-        "64 bits, unicode and quoting-hostile strings) through every single output (txt, json, csv folder, sql script, "
-        "sqlite dburl) and pairs / triples of simultaneous outputs, row counts straddling 1000 / 10000; direct cases: "
-        "the stream classes driven with synthetic typed rows, database visibility watched by a second connection; "
-        "buffer cases: thresholds with default and overridden limits; mux cases: fan-out over test doubles with "
-        "failing writes / closes.  Oracle: decoded cell == encoding table (DESIGN appendix B) of the raw value captured "
-        "at write_row; same tables, counts, ids, order.  Model comparison: schema, sampled rows per format, buffer "
-        "trace, run summaries.  non-trivial: a case that writes at least one row to at least one output; distinct by case hash")
+        "64 bits, unicode and quoting-hostile strings incl. control characters, U+2028, U+10FFFF, SQL-looking text) through every "
+        "single output (txt, json, csv folder, sql script, sqlite dburl) and pairs / triples of simultaneous outputs, row counts "
+        "straddling 1000 / 10000; project recipes: 0-3 include files (files including files), macros defined in any file "
+        "(macros including macros, macro friends, redefinition), templates nested in field values / in function arguments "
+        "(block and flow style: several templates on one line) / in variables, templates of one table with different field "
+        "sets in different files starting on the same line number; update recipes with pass-through columns; recipes the "
+        "parser must refuse; direct cases: the stream classes driven with synthetic typed rows (tables obtained through the "
+        "real parser), database visibility watched by a second connection; buffer cases: thresholds with default and "
+        "overridden limits; mux cases: fan-out over test doubles with failing writes / closes.  Oracle: decoded cell == "
+        "encoding table (DESIGN appendix B) of the raw value captured at write_row; same tables, counts, ids, order of rows.  "
+        "Model comparison: schema inferred by the model's parser from the recipe syntax vs the columns of the artefacts, "
+        "sampled rows per format, buffer trace, run summaries, and for every artefact up to 6000 characters its bytes: read by "
+        "the model's csv / json / sql readers (must give the expected cells) and compared with the model's writers (byte-exact "
+        "unless the implementation's format changed in a way the readers still decode).  non-trivial: a case that writes at "
+        "least one row to at least one output; distinct by case hash")
 TRUSTED = ["harness/c08.py: capture stream, decoders (csv.reader, json.loads, sqlite3 on the database and on the executed "
-           "SQL script, regex reader for the debug text), the Python copy of the encoder table used by the oracle"]
-ASSUMPTIONS = ["csv, json, sqlite3 and SQLAlchemy move cells faithfully (what is written is what the independent decoder reads back)",
+           "SQL script, regex reader for the debug text), the Python copy of the encoder table used by the oracle, the Python "
+           "mirror of the parser's registration order (oracle side of the schema), the ports of the writers (csv.writer, "
+           "json.dumps, SQLite quote) that only decide whether an artefact is expected to be byte-exact"]
+ASSUMPTIONS = ["sqlite3 and SQLAlchemy move cells faithfully between the stream and the database file (the csv / json / sql-dump "
+               "text formats themselves are modelled, proved invertible and compared byte by byte for artefacts up to 6000 characters; "
+               "larger artefacts are only read by Python's csv / json / sqlite3)",
                "floats are never generated nor compared",
                "values reach the streams unchanged by the interpreter only in so far as the capture stream sees the same raw values "
                "(recipes are deterministic: the capture run and the real run see the same rows)",
-               "table and field names are ASCII identifiers; no field is itself called id / _sf_update_key"]
+               "table and field names are ASCII identifiers; no field is itself called id / _sf_update_key",
+               "the YAML reader hands the parser the structure the harness wrote (yaml.safe_dump / safe_load round trip)"]
 
 I64_LO, I64_HI = -2 ** 63, 2 ** 63
 TABLES = ["A", "B", "C", "D"]
@@ -57,7 +73,10 @@ HIDDEN_FIELD = "__h0"
 HOSTILE = ["", "plain", "zé\U0001F600", "日本語", "a,b \"q\" 'x'; l1\nl2", "\"", ",", "'", ";", "''",
            "\"\"", "l1\r\nl2", " lead", "trail ", "tab\there", "0012", "None", "NULL", "null", "true", "1.50", "\\",
            "a\\nb", "--", "');DROP TABLE A;--", "%s", "{x}", "x=1", "[1, 2]", "\r", "\n", "a\nb\n", " ", "﻿bom",
-           "x" * 300, "café, \"crème\"\n;'"]
+           "x" * 300, "café, \"crème\"\n;'", "\x7f", "\x1f\x01", "\u2028\u2029", "\x85", "\\u0041", "\\\"", "\U0010ffff",
+           "a\x0bb\x0c", "\\n", "/", "</script>", "\ud7ff\ue000", "'';", ");\nINSERT INTO \"A\" VALUES(9);"]
+# finding C08-sql-script-nul: a NUL character ends the text in the SQL script
+NUL_VALUES = [["str", "a\x00b"], ["str", "\x00"], ["str", "x\x00"], ["str", "\x00'q"], ["str", "é\x00\U0001F600"]]
 
 
 # ============================================================================ value specs
@@ -215,6 +234,11 @@ def is_k9_value(v):
 K9_VALUES = [["str", "\ud800"], ["str", "a\udfffb"], ["str", "\udc00\ud800"]]
 
 
+def is_k10_value(v):
+    """a text SQLite's quote() cuts short when the SQL script is dumped"""
+    return v[0] == "str" and "\x00" in v[1]
+
+
 # ============================================================================ schema (oracle copy)
 # A recipe case is a small project: the main file (`templates` = its statements, `includes`, `macros`) and
 # `files` it includes (each {name, includes, macros, stmts}).  A statement is a template
@@ -254,8 +278,19 @@ def load_project(case):
             macros[m["name"]] = m
         return stmts + list(f.get("stmts", []))
 
-    main = {"includes": case.get("includes", []), "macros": case.get("macros", []), "stmts": case["templates"]}
+    main = {"includes": case.get("includes", []), "macros": case.get("macros", []), "stmts": main_statements(case)}
     return macros, load(main, MAIN_FILE, [])
+
+
+def main_statements(case):
+    """the statements of the main file as far as the schema goes: in an update recipe (build_update_recipe) the
+    pass-through columns of the input file become fields of the one template"""
+    sts = case["templates"]
+    up = case.get("update")
+    if up and up.get("passthrough") and sts and "table" in sts[0]:
+        extra = [[n, ["inp", n]] for n in up["passthrough"]]
+        return [dict(sts[0], fields=sts[0]["fields"] + extra)] + sts[1:]
+    return sts
 
 
 def _walk_value(v, macros, stack, out):
@@ -378,13 +413,17 @@ OUTPUT_SETS = [["txt"], ["json"], ["csv"], ["sql"], ["db"],
                ["csv", "db", "db"], ["sql", "json", "txt", "db"], ["txt", "txt"], ["json", "json", "db"]]
 
 
-def gen_recipe_case(rng, big_count=None, outputs=None, k9=False):
+def gen_recipe_case(rng, big_count=None, outputs=None, k9=False, k10=False):
     outputs = outputs or rng.choice(OUTPUT_SETS)
     sqlish = any(o in ("db", "sql") for o in outputs)
     nvalues = rng.randint(3, 10)
     values = [gen_value(rng, allow_k9=True) for _ in range(nvalues)]
     if k9:
         values[rng.randrange(nvalues)] = rng.choice(K9_VALUES)
+    if k10:
+        values = [v for v in values if not (v[0] == "int" and not I64_LO <= v[1] < I64_HI)] + [["none"]] * 3
+        values = values[:nvalues]
+        values[rng.randrange(nvalues)] = rng.choice(NUL_VALUES)
     ntab = rng.randint(1, 4)
     tabs = rng.sample(TABLES, ntab)
     templates = []
@@ -396,9 +435,9 @@ def gen_recipe_case(rng, big_count=None, outputs=None, k9=False):
         templates.append(t)
         if not tb.startswith("__") and (t["count"] != 0 or rng.random() < 0.1):
             known.append(tb)
-    if k9:
+    if k9 or k10:
         # make sure the rejected value reaches a visible table exactly through a plain field
-        i = next(j for j, v in enumerate(values) if is_k9_value(v))
+        i = next(j for j, v in enumerate(values) if is_k9_value(v) or is_k10_value(v))
         tgt = next((t for t in templates if not t["table"].startswith("__")), None)
         if tgt is None:
             tgt = {"table": "A", "count": None, "fields": [], "friends": []}
@@ -413,6 +452,165 @@ def gen_recipe_case(rng, big_count=None, outputs=None, k9=False):
         templates.insert(rng.randrange(len(templates) + 1), cheap)
     return {"kind": "recipe", "version": rng.choice([2, 3]), "values": values, "templates": templates,
             "outputs": outputs}
+
+
+MACRO_FIELDS = ["m0", "m1", "m2"]
+INCLUDE_NAMES = ["inc0.yml", "inc1.yml", "inc2.yml"]
+
+
+def gen_project_case(rng, outputs=None, align=None):
+    """a recipe spread over include files, with macros (fields, friends, macros including macros), templates
+    nested in fields / in function arguments (block and flow style) / in variables, friends; the same table
+    described by templates with different field sets in different places"""
+    outputs = outputs or rng.choice(OUTPUT_SETS)
+    nvalues = rng.randint(3, 8)
+    values = [gen_value(rng, allow_k9=False) for _ in range(nvalues)]
+    tabs = rng.sample(TABLES, rng.randint(1, 4))
+    nvar = [0]
+
+    def table():
+        return rng.choice(tabs) if rng.random() < 0.93 else HIDDEN_TABLE
+
+    def simple_value():
+        r = rng.random()
+        if r < 0.6:
+            return ["val", rng.randrange(nvalues)]
+        if r < 0.75:
+            return ["idx"]
+        return ["lit", rng.choice(["abc", "x y", 5, 0, -3])]
+
+    def nested(depth, pool):
+        return {"table": table(), "fields": fields(depth + 1, rng.randint(0, 2), pool), "friends": []}
+
+    def fields(depth, n, pool):
+        names = rng.sample(pool, min(n, len(pool)))
+        if names and rng.random() < 0.1:
+            names[rng.randrange(len(names))] = HIDDEN_FIELD
+        out = []
+        for nm in names:
+            r = rng.random()
+            if depth < 2 and r < 0.18:
+                out.append([nm, ["obj", nested(depth, pool), rng.random() < 0.5]])
+            elif depth < 2 and r < 0.30:
+                out.append([nm, ["fn", [nested(depth, pool) for _ in range(rng.randint(1, 2))], rng.random() < 0.6]])
+            else:
+                out.append([nm, simple_value()])
+        return out
+
+    def stmts(depth, n, macro_names, counts):
+        out = []
+        for _ in range(n):
+            if depth < 2 and rng.random() < 0.1:
+                nvar[0] += 1
+                out.append({"var": "v%d" % nvar[0], "value": ["obj", nested(depth, FIELDS), rng.random() < 0.5]})
+                continue
+            t = {"table": table(), "count": rng.choice(counts), "fields": fields(depth, rng.randint(0, 3), FIELDS), "friends": []}
+            if macro_names and rng.random() < 0.45:
+                t["include"] = rng.sample(macro_names, rng.randint(1, min(2, len(macro_names))))
+            vis = [nm for nm, _ in t["fields"] if not nm.startswith("__")]
+            if vis and rng.random() < 0.15:
+                t["upd"] = rng.choice(vis)
+            if depth == 0 and rng.random() < 0.25:
+                t["friends"] = stmts(depth + 1, rng.randint(1, 2), macro_names, [None, None, 1, 2, 0])
+            out.append(t)
+        return out
+
+    # macros: macro i may include macros with a smaller index (no cycle)
+    nmac = rng.choice([0, 1, 1, 2, 3])
+    macros = []
+    for i in range(nmac):
+        m = {"name": "mac%d" % i, "fields": fields(0, rng.randint(0, 3), MACRO_FIELDS + (FIELDS[:2] if rng.random() < 0.4 else [])),
+             "friends": []}
+        if i and rng.random() < 0.4:
+            m["include"] = rng.sample(["mac%d" % j for j in range(i)], 1)
+        if rng.random() < 0.35:
+            m["friends"] = stmts(1, 1, ["mac%d" % j for j in range(i)] if rng.random() < 0.3 else [], [None, 1, 2])
+        macros.append(m)
+    if nmac and rng.random() < 0.15:          # a second definition of a name: the later one wins
+        macros.append({"name": "mac0", "fields": fields(0, rng.randint(1, 2), MACRO_FIELDS), "friends": []})
+    macro_names = sorted({m["name"] for m in macros})
+    small = [None, None, 1, 2, 3, 0]
+    nfiles = rng.choice([0, 1, 1, 2, 2, 3])
+    files = [{"name": INCLUDE_NAMES[i], "includes": [], "macros": [], "stmts": stmts(0, rng.randint(1, 3), macro_names, small),
+              "version_line": rng.random() < 0.5, "macros_last": rng.random() < 0.3} for i in range(nfiles)]
+    for i, f in enumerate(files):              # a file may include files with a larger index (no cycle)
+        for j in range(i + 1, nfiles):
+            if rng.random() < 0.35:
+                f["includes"].append(files[j]["name"])
+    includes = [f["name"] for f in files if rng.random() < 0.8]
+    if files and not includes:
+        includes = [files[0]["name"]]
+    rng.shuffle(includes)
+    main_macros = []
+    reach, todo = [], list(includes)
+    while todo:
+        n = todo.pop()
+        if n not in reach:
+            reach.append(n)
+            todo.extend(next(f for f in files if f["name"] == n)["includes"])
+    homes = [main_macros] + [f["macros"] for f in files if f["name"] in reach or rng.random() < 0.05]
+    for m in macros:
+        rng.choice(homes).append(m)
+    case = {"kind": "recipe", "version": rng.choice([2, 3]), "values": values,
+            "templates": stmts(0, rng.randint(1, 3), macro_names, small), "outputs": outputs,
+            "files": files, "includes": includes, "macros": main_macros, "macros_last": rng.random() < 0.3}
+    if align if align is not None else (files and rng.random() < 0.7):
+        case["align"] = True
+        # the first template of every file: often the same table (that is when line numbers can be confused)
+        firsts = [f["stmts"] for f in files] + [case["templates"]]
+        tb = rng.choice(tabs)
+        for sts in firsts:
+            if sts and "table" in sts[0] and rng.random() < 0.75:
+                sts[0]["table"] = tb
+                sts[0]["nick"] = None if rng.random() < 0.85 else "nk"
+                if sts[0].get("count") == 0:
+                    sts[0]["count"] = 1
+    return case
+
+
+def gen_update_case(rng, outputs=None):
+    """an update recipe: one template, one row per line of an input CSV file; pass-through columns of the input
+    become fields of the rows (and columns of the schema) without being written in the recipe"""
+    outputs = outputs or rng.choice(OUTPUT_SETS)
+    values = [gen_value(rng, allow_k9=False) for _ in range(4)]
+    cols = rng.sample(["c0", "c1", "c2", "Oid", "Name"], rng.randint(1, 4))
+    pool = [h for h in HOSTILE if not has_surrogate(h) and "\x00" not in h and len(h) < 50 and h != "[1, 2]"]
+    rows = [[rng.choice(pool) if rng.random() < 0.7 else str(rng.randint(-5, 10 ** 6)) for _ in cols]
+            for _ in range(rng.choice([0, 1, 2, 3, 7]))]
+    names = rng.sample(FIELDS, rng.randint(0, 3))
+    fields = []
+    for n in names:
+        r = rng.random()
+        fields.append([n, ["inp", rng.choice(cols)] if r < 0.5 else ["val", rng.randrange(4)] if r < 0.8 else ["lit", "abc"]])
+    t = {"table": rng.choice(TABLES), "count": None, "fields": fields, "friends": []}
+    if names and rng.random() < 0.3:
+        t["upd"] = rng.choice(names)
+    if rng.random() < 0.3:
+        t["friends"] = [{"table": rng.choice(TABLES), "count": rng.choice([None, 2]),
+                         "fields": [[rng.choice(FIELDS), ["inp", rng.choice(cols)]]], "friends": []}]
+    return {"kind": "recipe", "version": rng.choice([2, 3]), "values": values, "templates": [t], "outputs": outputs,
+            "update": {"cols": cols, "rows": rows, "passthrough": rng.sample(cols, rng.randint(0, len(cols)))}}
+
+
+def gen_parse_error_case(rng):
+    """recipes the parser must refuse: a macro that is not defined / includes itself, an include file that
+    does not exist / includes itself"""
+    case = gen_project_case(rng, outputs=[rng.choice(["json", "csv", "db"])], align=False)
+    kind = rng.choice(["no-macro", "macro-cycle", "no-file", "file-cycle"])
+    if kind == "no-macro":
+        case["templates"].append({"table": "A", "count": None, "fields": [], "friends": [], "include": ["nosuch"]})
+    elif kind == "macro-cycle":
+        case["macros"] = case.get("macros", []) + [{"name": "cy0", "include": ["cy1"], "fields": [], "friends": []},
+                                                   {"name": "cy1", "include": ["cy0"], "fields": [], "friends": []}]
+        case["templates"].append({"table": "A", "count": None, "fields": [], "friends": [], "include": ["cy0"]})
+    elif kind == "no-file":
+        case["includes"] = case.get("includes", []) + ["nosuch.yml"]
+    else:
+        case["files"] = case.get("files", []) + [{"name": "cyc0.yml", "includes": ["cyc1.yml"], "macros": [], "stmts": []},
+                                                 {"name": "cyc1.yml", "includes": ["cyc0.yml"], "macros": [], "stmts": []}]
+        case["includes"] = case.get("includes", []) + ["cyc0.yml"]
+    case["parse_error"] = kind
+    return case
 
 
 def gen_forward_case(rng, outputs=None, cont=False):
@@ -449,8 +647,10 @@ def gen_continued_case(rng, outputs=None):
             "continued": True}
 
 
-def gen_direct_case(rng, k9=False):
+def gen_direct_case(rng, k9=False, k10=False):
     fmts = rng.choice(OUTPUT_SETS + [["csv", "txt"], ["csv", "json", "sql"], ["csv"], ["db"], ["sql"]])
+    if k10:
+        fmts = rng.choice([["sql"], ["sql", "db"], ["json", "sql"], ["csv", "sql", "txt"]])
     sqlish = any(o in ("db", "sql") for o in fmts)
     ntab = rng.randint(1, 4)
     tabs = rng.sample(TABLES, ntab)
@@ -490,6 +690,22 @@ def gen_direct_case(rng, k9=False):
                 if t == tb:
                     r[0] = ["id", ["int", new[j]]]
                     j += 1
+    if k10:
+        cands = [(i, j) for i, (_, r) in enumerate(rows) for j, (k, v) in enumerate(r) if k not in ("id", "_sf_update_key")]
+        if not cands:
+            t = next((t for t in templates if t["fields"]), None)
+            if t is None:
+                t = templates[0]
+                t["fields"] = [["f0", None]]
+            ids[t["table"]] += 1
+            rows.append([t["table"], [["id", ["int", 10 ** 7 + ids[t["table"]]]], [t["fields"][0][0], ["none"]]]])
+            cands = [(len(rows) - 1, 1)]
+        i, j = rng.choice(cands)
+        rows[i][1][j] = [rows[i][1][j][0], rng.choice(NUL_VALUES)]
+        for _, r in rows:      # nothing else the database would refuse
+            for kv in r:
+                if kv[1][0] == "int" and not I64_LO <= kv[1][1] < I64_HI or kv[1][0] == "ref" and not I64_LO <= kv[1][2] < I64_HI:
+                    kv[1] = ["int", 5]
     case = {"kind": "direct", "templates": templates, "rows": rows, "outputs": fmts}
     if sqlish and rng.random() < 0.7:
         fl = rng.choice([1, 2, 3, 4, 5, 7])
@@ -505,7 +721,7 @@ def generate(rng, tier):
     cases = []
     quick = tier == "quick"
     # ---- direct cases first (small observables: the evidence samples come from here)
-    for _ in range(260 if quick else 5000):
+    for _ in range(260 if quick else 3600):
         cases.append(gen_direct_case(rng))
     for _ in range(4 if quick else 30):
         cases.append(gen_direct_case(rng, k9=True))
@@ -513,8 +729,17 @@ def generate(rng, tier):
     for outs in OUTPUT_SETS:
         for _ in range(2 if quick else 25):
             cases.append(gen_recipe_case(rng, outputs=list(outs)))
-    for _ in range(30 if quick else 800):
+    for _ in range(30 if quick else 600):
         cases.append(gen_recipe_case(rng))
+    # ---- recipes spread over include files, macros, nested templates, variables (the schema comes from the parser)
+    for outs in [["csv"], ["db"], ["sql"], ["csv", "db"], ["json", "sql"], ["txt", "json", "db"]] * (2 if quick else 40):
+        cases.append(gen_project_case(rng, outputs=list(outs)))
+    for _ in range(24 if quick else 450):
+        cases.append(gen_project_case(rng))
+    for _ in range(6 if quick else 60):
+        cases.append(gen_parse_error_case(rng))
+    for outs in [["csv"], ["db"], ["sql"], None, None, None] * (1 if quick else 20):
+        cases.append(gen_update_case(rng, outputs=outs and list(outs)))
     # ---- rows that reach the stream out of id order (forward references) / ids that do not start at 1 (continued runs)
     for outs in [["db"], ["sql"], ["json", "sql", "db"], ["csv", "db"], None, None] * (1 if quick else 12):
         cases.append(gen_forward_case(rng, outputs=outs and list(outs)))
@@ -535,6 +760,11 @@ def generate(rng, tier):
                  [["db"], ["sql"], ["json", "db"], ["txt", "json", "sql"], ["csv", "db"], ["db", "db"],
                   ["sql", "json", "txt", "db"]] * 3):
         cases.append(gen_recipe_case(rng, outputs=list(outs), k9=True))
+    # ---- known finding C08-sql-script-nul: a NUL character in a text, SQL script among the outputs
+    for _ in range(4 if quick else 40):
+        cases.append(gen_direct_case(rng, k10=True))
+    for outs in ([["sql"], ["json", "sql"]] if quick else [["sql"], ["json", "sql"], ["sql", "db"], ["txt", "json", "sql"]] * 3):
+        cases.append(gen_recipe_case(rng, outputs=list(outs), k10=True))
     # ---- buffer machine around the thresholds
     for text in (False, True):
         for n in [0, 1, 999, 1000, 1001, 2500] + ([] if quick else [9999, 10000, 10001, 20001]):
@@ -579,6 +809,8 @@ def render_project(case, plugin_mod):
             return {"reference": f[1]}
         if f[0] == "idx":
             return "${{child_index}}"
+        if f[0] == "inp":
+            return "${{input.%s}}" % f[1]
         if f[0] == "obj":
             d = tpl(f[1])
             return [d] if len(f) > 2 and f[2] else d
@@ -648,8 +880,8 @@ def render_project(case, plugin_mod):
         out = []
         for table, it in its:
             text = _dump([it])
-            for key, flow in flows.items():
-                text = text.replace(key, flow)
+            for key in reversed(list(flows)):      # an outer flow collection may hold inner ones
+                text = text.replace(key, flows[key])
             out.append([table, text])
         rendered[name] = out
 
@@ -919,12 +1151,14 @@ def in_write_order(got_rows, raw_rows):
 def compare_row(fmt, table, raw, got, ti):
     rawd = {k: v for k, v in raw}
     if fmt in ("txt", "json"):
-        if [k for k, _ in got] != [k for k, _ in raw]:
+        # the same fields (in any order: the property does not talk about the order inside a record) ...
+        if sorted(k for k, _ in got) != sorted(k for k, _ in raw):
             return "cell: %s row of %s has fields %s, written were %s" % (fmt, table, [k for k, _ in got], [k for k, _ in raw])
-        for (k, v), (_, c) in zip(raw, got):
+        gd = dict(got)
+        for k, v in raw:
             e = exp_cell(fmt, k == "id", v)
-            if e is not None and c != e:
-                return "cell: %s output, table %s field %s: value %r was written as %r, expected %r" % (fmt, table, k, v, c, e)
+            if e is not None and gd[k] != e:
+                return "cell: %s output, table %s field %s: value %r was written as %r, expected %r" % (fmt, table, k, v, gd[k], e)
         return None
     gotd = {k: c for k, c in got}
     for k, v in raw:
@@ -1028,8 +1262,18 @@ def run_recipe_case(case):
 
         cap = _capture_stream()
         cont_kw = {}
+        up = case.get("update")
+        if up:
+            with open(d / "input.csv", "w", newline="", encoding="utf-8") as f:
+                w = csv.writer(f)
+                w.writerow(up["cols"])
+                w.writerows(up["rows"])
         try:
-            if case.get("continued"):
+            if up:
+                with open(rp, encoding="utf-8") as f, open(d / "input.csv", newline="", encoding="utf-8-sig") as inp:
+                    generate(f, {}, cap, QuietApp(), update_input_file=inp, update_passthrough_fields=tuple(up["passthrough"]))
+                cont_kw.update(update_input_file=str(d / "input.csv"), update_passthrough_fields=tuple(up["passthrough"]))
+            elif case.get("continued"):
                 # first run (into a capture stream) only produces the continuation file
                 try:
                     with open(rp, encoding="utf-8") as f, open(d / "cont.yml", "w", encoding="utf-8") as cf:
@@ -1051,6 +1295,8 @@ def run_recipe_case(case):
                 return {"skip": "the continued run fails in the interpreter (%s): not this property" % C.canon_exc(e)}
             return {"capture_err": C.canon_exc(e), "msg": str(e)[:300]}
         raw = cap.rows
+        if case.get("parse_error"):
+            return {"parse_accepted": True, "nrows": len(raw)}
         files, dburls, csv_folder, order = _output_paths(d, case["outputs"])
         app = QuietApp()
         kw = {}
@@ -1089,25 +1335,43 @@ def digest_outputs(case, order, raw, hint):
         msgs, found, samples = compare_output(fmt, dec, raw, schema)
         cols = {t: v["cols"] for t, v in dec["tables"].items()} if "tables" in dec else {}
         outs.append({"fmt": fmt, "mismatches": msgs[:6], "counts": found, "closed": bool(dec.get("closed", True)),
-                     "samples": samples[:14], "cols": cols})
+                     "samples": samples[:14], "cols": cols, "bytes": artefact_text(fmt, path)})
     return outs
 
 
-def _stub_template(t):
-    from types import SimpleNamespace
-    return SimpleNamespace(tablename=t["table"], fields=[SimpleNamespace(name=n) for n, _ in t["fields"]],
-                           friends=[], update_key=t.get("upd") or None)
+def artefact_text(fmt, path):
+    """the characters of a small artefact (per table for a CSV folder); None when it is large / unreadable"""
+    try:
+        if fmt == "db":
+            return None
+        if fmt == "csv":
+            out = {}
+            for p in sorted(Path(path).glob("*.csv")):
+                if p.stat().st_size > 4 * BYTES_LIMIT:
+                    return None
+                out[p.stem] = _read(p)
+            return out if sum(len(v) for v in out.values()) <= BYTES_LIMIT else None
+        if not Path(path).exists() or Path(path).stat().st_size > 4 * BYTES_LIMIT:
+            return None
+        t = _read(path)
+        return t if len(t) <= BYTES_LIMIT else None
+    except Exception:
+        return None
 
 
 def build_tables(templates):
-    """TableInfo objects through the real TableInfo.register"""
-    from snowfakery.parse_recipe_yaml import TableInfo
-    tabs = {}
+    """the tables a stream is created with, through the real parser: {name: TableInfo} of a recipe that has
+    exactly these templates (one field list each, literal values)"""
+    from snowfakery.parse_recipe_yaml import parse_recipe
+    doc = []
     for t in registration_order(templates):
-        ti = tabs.get(t["table"]) or TableInfo(t["table"])
-        tabs[t["table"]] = ti
-        ti.register(_stub_template(t))
-    return {k: v for k, v in tabs.items() if not k.startswith("__")}
+        d = {"object": t["table"]}
+        if t.get("upd"):
+            d["update_key"] = t["upd"]
+        if t["fields"]:
+            d["fields"] = {n: "x" for n, _ in t["fields"]}
+        doc.append(d)
+    return dict(parse_recipe(io.StringIO(_dump(doc))).tables)
 
 
 def impl_value(v):
@@ -1466,6 +1730,221 @@ def cschema(cols):
     return C.clist(C.cpair(C.cstr(t), C.clist(C.cstr(c) for c in cs)) for t, cs in sorted(cols.items()))
 
 
+# ---------------------------------------------------------------------------- recipe syntax for StreamParse
+def cfval(v):
+    if v and v[0] == "obj":
+        return "(FVObj %s)" % ctpl(v[1])
+    if v and v[0] == "fn":
+        return "(FVArgs %s)" % cchain("VCons", "VNil", ["(FVObj %s)" % ctpl(t) for t in v[1]])
+    return "FVSimple"
+
+
+def cchain(cons, nil, items):
+    out = nil
+    for it in reversed(items):
+        out = "(%s %s %s)" % (cons, it, out)
+    return out
+
+
+def cfields(fs):
+    return cchain("FCons", "FNil", ["%s %s" % (C.cstr(n), cfval(v)) for n, v in fs])
+
+
+def cstmts(sts):
+    out = "SNil"
+    for st in reversed(sts):
+        if "var" in st:
+            out = "(SVar %s %s)" % (cfval(st["value"]), out)
+        else:
+            out = "(SObj %s %s)" % (ctpl(st), out)
+    return out
+
+
+def ctpl(t):
+    return "(Tpl %s %s %s %s %s)" % (C.cstr(t["table"]), C.cbool(bool(t.get("upd"))),
+                                     C.clist(C.cstr(m) for m in t.get("include", [])),
+                                     cfields(t["fields"]), cstmts(t.get("friends", [])))
+
+
+def cmacro(m):
+    return "(mkM %s %s %s %s)" % (C.cstr(m["name"]), C.clist(C.cstr(x) for x in m.get("include", [])),
+                                  cfields(m.get("fields", [])), cstmts(m.get("friends", [])))
+
+
+def crfile(f):
+    return "(mkF %s %s %s)" % (C.clist(C.cstr(x) for x in f.get("includes", [])),
+                               C.clist(cmacro(m) for m in f.get("macros", [])), cstmts(f.get("stmts", [])))
+
+
+def cproject(case):
+    files = C.clist(C.cpair(C.cstr(f["name"]), crfile(f)) for f in case.get("files", []))
+    main = crfile({"includes": case.get("includes", []), "macros": case.get("macros", []), "stmts": main_statements(case)})
+    return files + " " + main
+
+
+def parse_term(case, outputs_obs):
+    """the schema as the model's parser infers it from the recipe's syntax, against the columns of the artefacts"""
+    csvs = [o["cols"] for o in outputs_obs if o["fmt"] == "csv" and o.get("cols") and not o.get("undecodable")
+            and o.get("closed", True)]
+    dbs = [o["cols"] for o in outputs_obs if o["fmt"] in ("db", "sql") and o.get("cols") and o.get("closed", True)]
+    if not csvs and not dbs:
+        return []
+    c = csvs[0] if csvs else py_csv_cols(case)
+    d = dbs[0] if dbs else py_db_cols(case)
+    return [f"XParse {cproject(case)} {cschema(c)} {cschema(d)}"]
+
+
+# ---------------------------------------------------------------------------- artefacts as bytes
+def _cells(fmt, row, names=None):
+    """[(key, expected cell)] of one raw row; None when a value is outside the compared types / refused"""
+    out = []
+    for k, v in row:
+        e = exp_cell(fmt, k == "id", v)
+        if e is None or e == ["reject"]:
+            return None
+        out.append((k, e))
+    return out
+
+
+def port_csv(ti, raws):
+    hdr = columns_of(ti)
+    f = io.StringIO(newline="")
+    w = csv.writer(f)
+    w.writerow(hdr)
+    for r in raws:
+        cs = _cells("csv", r)
+        if cs is None:
+            return None
+        d = dict(cs)
+        w.writerow([d[h][1] if h in d else "" for h in hdr])
+    return f.getvalue()
+
+
+def _json_py(c):
+    return None if c[0] == "null" else c[1]
+
+
+def port_json(rows):
+    if not rows:
+        return ""
+    parts = []
+    for t, r in rows:
+        cs = _cells("json", r)
+        if cs is None:
+            return None
+        parts.append(json.dumps({"_table": t, **{k: _json_py(c) for k, c in cs}}))
+    return "[" + ",\n".join(parts) + "]\n"
+
+
+def port_txt(rows):
+    out = []
+    for t, r in rows:
+        cs = _cells("txt", r)
+        if cs is None:
+            return None
+        out.append("%s(%s)\n" % (t, ", ".join("%s=%s" % (k, c[1]) for k, c in cs)))
+    return "".join(out)
+
+
+def _sql_lit(c):
+    if c[0] == "null":
+        return "NULL"
+    if c[0] == "num":
+        return str(c[1])
+    return "'" + c[1].split("\x00")[0].replace("'", "''") + "'"
+
+
+def port_sql_inserts(case, rows):
+    """the INSERT statements of the script, as a sorted list; None when a value is outside the compared types"""
+    phys = py_db_cols(case)
+    out = []
+    for t, r in rows:
+        cs = _cells("sql", r)
+        if cs is None or t not in phys:
+            return None
+        d = dict(cs)
+        out.append('INSERT INTO "%s" VALUES(%s)' % (t, ",".join(_sql_lit(d[h]) if h in d else "NULL" for h in phys[t])))
+    return sorted(out)
+
+
+def split_sql(text):
+    """statements of a script (port of StreamCodecs.sql_split); None when it does not end cleanly"""
+    out, cur, mode = [], [], "p"
+    for ch in text:
+        if mode == "p":
+            if ch == ";":
+                out.append("".join(cur))
+                cur = []
+            elif ch == "'":
+                mode = "s"
+                cur.append(ch)
+            elif ch == '"':
+                mode = "d"
+                cur.append(ch)
+            elif ch in " \t\n\r" and not cur:
+                pass
+            else:
+                cur.append(ch)
+        else:
+            cur.append(ch)
+            if (mode == "s" and ch == "'") or (mode == "d" and ch == '"'):
+                mode = "p"
+    return out if mode == "p" and not cur else None
+
+
+def byte_terms(case, outputs_obs, rows):
+    """XCsv / XJson / XSql / XTxt terms for the small artefacts of a run that wrote `rows` (raw, in write order)"""
+    terms = []
+    stats = []
+    if rows is None or len(rows) > 60:
+        return terms, stats
+    if not all(comparable_value(v) and v[0] != "other" for _, r in rows for _, v in r):
+        return terms, stats
+    schema = py_infer(case_templates(case))
+    crows = C.clist(C.cpair(C.cstr(t), crow(r)) for t, r in rows)
+    for o in outputs_obs:
+        b = o.get("bytes")
+        fmt = o["fmt"]
+        if b is None or o.get("undecodable") or not o.get("closed", True) or o.get("mismatches"):
+            continue
+        if fmt == "csv":
+            for t in sorted(schema):
+                if t not in b:
+                    continue
+                raws = [r for tt, r in rows if tt == t]
+                port = port_csv(schema[t], raws)
+                if port is None:
+                    continue
+                exact = port == b[t]
+                stats.append(("csv", exact))
+                terms.append(f"XCsv {ctinfo(schema[t])} {C.clist(crow(r) for r in raws)} {ctext(b[t])} {C.cbool(exact)}")
+        elif fmt == "json":
+            port = port_json(rows)
+            if port is None:
+                continue
+            exact = port == b
+            stats.append(("json", exact))
+            terms.append(f"XJson {crows} {ctext(b)} {C.cbool(exact)}")
+        elif fmt == "txt":
+            port = port_txt(rows)
+            if port is None or port != b:
+                if port is not None:
+                    stats.append(("txt", False))
+                continue
+            stats.append(("txt", True))
+            terms.append(f"XTxt {crows} {ctext(b)}")
+        elif fmt == "sql":
+            port = port_sql_inserts(case, rows)
+            stmts = split_sql(b)
+            if port is None or not o.get("cols") or any(t not in o["cols"] for t, _ in rows):
+                continue
+            exact = stmts is not None and sorted(x for x in stmts if x.startswith('INSERT INTO "')) == port
+            stats.append(("sql", exact))
+            tis = C.clist(C.cpair(C.cstr(t), ctinfo(schema[t])) for t in sorted(schema))
+            terms.append(f"XSql {tis} {cschema(o['cols'])} {crows} {ctext(b)} {C.cbool(exact)}")
+    return terms, stats
+
+
 def row_terms(case, outputs_obs, limit):
     """CRow terms for the sampled rows of every output"""
     schema = py_infer(case_templates(case))
@@ -1528,9 +2007,27 @@ def summary_term(o):
 
 
 def coq_case(case, obs):
+    base, extra = coq_terms(case, obs)
+    if base is None and not extra:
+        return None
+    parts = (["(XBase (%s))" % base] if base is not None else []) + ["(%s)" % t for t in extra]
+    return "XAll " + C.clist(parts)
+
+
+def written_rows(case, obs):
+    """the raw rows a finished run wrote, when they are known in full"""
+    if case["kind"] == "direct":
+        return case["rows"]
+    if case["kind"] == "recipe":
+        return obs.get("raw")
+    return None
+
+
+def coq_terms(case, obs):
+    """(term of Streams.case or None, [terms of StreamCases.xcase])"""
     kind = case["kind"]
     if obs.get("skip"):
-        return None
+        return None, []
     if kind == "mux":
         stubs = C.clist(C.cpair(C.cz(a), C.cbool(b)) for a, b in case["stubs"])
         rows = C.clist(C.cpair('"A"', crow([["id", ["int", i + 1]], ["x", ["str", "v"]]])) for i in range(case["n"]))
@@ -1539,25 +2036,25 @@ def coq_case(case, obs):
         else:
             exp = "(Ok (%s, %s))" % (C.clist(C.cpair(C.clist(C.cz(i) for i in ids), C.cbool(cl)) for ids, cl in obs["streams"]),
                                      C.cbool(obs["clean"]))
-        return f"CMux {stubs} {rows} {exp}"
+        return f"CMux {stubs} {rows} {exp}", []
     if kind == "buffer":
         if obs.get("run") != "ok" or obs.get("chg") is None or obs.get("last_buffered") is None:
-            return None
+            return None, []
         fl, cl = case["limits"] or [1000, 10000]
         chg = C.clist(C.cpair(C.cz(i), C.cz(v)) for i, v in obs["chg"])
         fin = C.clist(C.cpair(C.cstr(t), C.cz(n)) for t, n in sorted(obs["final"].items()))
         return (f"CBuffer {C.cbool(case['text'])} {fl} {cl} {case['k']} {case['n']} {chg} "
-                f"{C.cz(obs['last_buffered'])} {fin}")
+                f"{C.cz(obs['last_buffered'])} {fin}"), []
     if kind == "direct":
         terms = []
         k9 = any(is_k9_value(v) for _, r in case["rows"] for _, v in r)
         if k9:
             if obs.get("close") == "err" and len(case["rows"]) == 1:
                 v = next(v for _, v in case["rows"][0][1] if is_k9_value(v))
-                return f"CEncode {cfmt(case['outputs'][0])} false {cvalue(v)} (Err {C.cerr(obs['close_err'])})"
-            return None
+                return f"CEncode {cfmt(case['outputs'][0])} false {cvalue(v)} (Err {C.cerr(obs['close_err'])})", []
+            return None, []
         if obs.get("write") != "ok" or obs.get("close") != "ok":
-            return None
+            return None, []
         terms.extend(schema_term(case, obs["outputs"]))
         terms.extend(row_terms(case, obs["outputs"], 30))
         # buffer machine with explicit rows: the first database-like output
@@ -1574,15 +2071,20 @@ def coq_case(case, obs):
                 fin = C.clist(C.cpair(C.cstr(t), C.clist(C.clist(C.cpair(C.cstr(k), ccell(c)) for k, c in r) for r in rs))
                               for t, rs in sorted(full.items()))
                 terms.append(f"CBufferRows {C.cbool(sqlish[0] == 'sql')} {fl} {cl} {ti} {rows} {chg} {fin}")
-        if not terms:
-            return None
-        return "CAll " + C.clist("(%s)" % t for t in terms)
+        extra, _ = byte_terms(case, obs["outputs"], case["rows"])
+        return ("CAll " + C.clist("(%s)" % t for t in terms)) if terms else None, extra
     if kind == "recipe":
+        if case.get("parse_error"):
+            if obs.get("capture_err") == "DGE":
+                return None, [f"XParseErr {cproject(case)}"]
+            if obs.get("parse_accepted"):
+                return None, [f"XParse {cproject(case)} [] []"]      # the model refuses this recipe: reported as a disagreement
+            return None, []
         if "capture_err" in obs:
-            return None
-        terms = []
+            return None, []
+        terms, extra = [], []
         if obs["run"] == "ok":
-            terms.extend(schema_term(case, obs["outputs"]))
+            extra.extend(parse_term(case, obs["outputs"]))
             terms.extend(row_terms(case, obs["outputs"], 24))
         raw = obs.get("raw")
         if raw is not None and all(comparable_value(v) for _, r in raw for _, v in r):
@@ -1593,11 +2095,14 @@ def coq_case(case, obs):
                                            C.cbool(obs["could_not_close"] == 0))
             else:
                 exp = "None"
-            terms.append(f"CApp {ctemplates(case_templates(case))} {outs} {rows} {exp}")
-        if not terms:
-            return None
-        return "CAll " + C.clist("(%s)" % t for t in terms)
-    return None
+            # a run that raised on a str no text file can hold (lone surrogate) promised nothing: which writer
+            # refuses it first (json.dumps escapes it today) is not part of the property
+            if not (obs["run"] != "ok" and any(is_k9_value(v) for _, r in raw for _, v in r)):
+                terms.append(f"CApp {ctemplates(case_templates(case))} {outs} {rows} {exp}")
+        if obs["run"] == "ok" and not obs.get("could_not_close"):
+            extra.extend(byte_terms(case, obs["outputs"], raw)[0])
+        return ("CAll " + C.clist("(%s)" % t for t in terms)) if terms else None, extra
+    return None, []
 
 
 # ============================================================================ property oracle
@@ -1646,6 +2151,8 @@ def oracle(case, obs):
                 return o["mismatches"][0]
         return None
     if kind == "recipe":
+        if obs.get("parse_accepted"):
+            return None       # what the parser accepts is compared with the model only
         if "capture_err" in obs:
             if obs["capture_err"] != "DGE":
                 return "run-failed: the interpreter failed with %s: %s" % (obs["capture_err"], obs.get("msg", "")[:100])
@@ -1674,7 +2181,20 @@ def match_finding(case, obs, msg, findings):
             and obs.get("could_not_close", 0) > 0 and case_has_k9(case, obs) \
             and msg.split(":")[0] in ("rows-lost", "unclosed"):
         return "K9"
+    if "C08-sql-script-nul" in ids and case.get("kind") in ("recipe", "direct") and isinstance(obs, dict) and case_has_k10(case, obs) \
+            and msg.startswith("cell: sql output") and "\\x00" in msg:
+        return "C08-sql-script-nul"
     return None
+
+
+def case_has_k10(case, obs):
+    """a text with a NUL character reaches a SQL script"""
+    if "sql" not in case.get("outputs", []):
+        return False
+    rows = written_rows(case, obs)
+    if rows is None:
+        return any(is_k10_value(v) for v in case.get("values", []))
+    return any(is_k10_value(v) for _, r in rows for _, v in r)
 
 
 def nontrivial(case, obs):
@@ -1720,25 +2240,93 @@ def stats(cases, obss):
         else:
             outcomes["buffer:" + str(o.get("run"))] += 1
     feats = Counter()
+
+    def syntax(sts, acc):
+        for st in sts:
+            vals = [st["value"]] if "var" in st else [v for _, v in st["fields"]]
+            if "var" in st:
+                acc["var_holding_template"] += 1
+            else:
+                if st.get("friends"):
+                    acc["friends"] += 1
+                    syntax(st["friends"], acc)
+                if st.get("include"):
+                    acc["include_macro"] += 1
+            for v in vals:
+                if v and v[0] == "obj":
+                    acc["nested_template"] += 1
+                    syntax([v[1]], acc)
+                elif v and v[0] == "fn":
+                    acc["template_in_function_args" + ("_flow_style" if len(v) > 2 and v[2] else "")] += 1
+                    syntax(v[1], acc)
+
     for c in cases:
         if c["kind"] in ("recipe", "direct"):
-            ts = registration_order(c["templates"])
+            try:
+                ts = case_templates(c) if c["kind"] == "recipe" else registration_order(c["templates"])
+            except ParseErr:
+                feats["parser_must_refuse"] += 1
+                continue
             tabs = Counter(t["table"] for t in ts)
             feats["tables=%d" % len([t for t in tabs if not t.startswith("__")])] += 1
             if any(n > 1 for n in tabs.values()):
                 feats["several_templates_per_table"] += 1
+            fsets = {}
+            for t in ts:
+                fsets.setdefault(t["table"], set()).add(tuple(sorted(n for n, _ in t["fields"])))
+            if any(len(v) > 1 for v in fsets.values()):
+                feats["templates_of_a_table_with_different_field_sets"] += 1
             if any(t.get("upd") for t in ts):
                 feats["update_key"] += 1
             if any(t["table"].startswith("__") for t in ts):
                 feats["hidden_table"] += 1
             if any(n.startswith("__") for t in ts for n, _ in t["fields"]):
                 feats["hidden_field"] += 1
-            if any(t.get("friends") for t in ts):
-                feats["friends"] += 1
             if c.get("limits"):
                 feats["overridden_limits"] += 1
+            if c.get("update"):
+                feats["update_recipe"] += 1
+                if c["update"].get("passthrough"):
+                    feats["update_recipe_with_passthrough_columns"] += 1
+            acc = Counter()
+            syntax(c["templates"], acc)
+            for f in c.get("files", []):
+                syntax(f.get("stmts", []), acc)
+            allm = list(c.get("macros", [])) + [m for f in c.get("files", []) for m in f.get("macros", [])]
+            for m in allm:
+                syntax([{"fields": m.get("fields", []), "friends": m.get("friends", [])}], acc)
+            for k in acc:
+                feats[k] += 1
+            if c.get("files"):
+                feats["include_files=%d" % len(c["files"])] += 1
+            if any(f.get("includes") for f in c.get("files", [])):
+                feats["include_file_includes_file"] += 1
+            if allm:
+                feats["macros"] += 1
+            if any(m.get("include") for m in allm):
+                feats["macro_includes_macro"] += 1
+            if any(m.get("friends") for m in allm):
+                feats["macro_with_friends"] += 1
+            if any(f.get("macros") for f in c.get("files", [])):
+                feats["macro_defined_in_include_file"] += 1
+            if c["kind"] == "recipe" and c.get("files") and same_line_templates(c):
+                feats["same_table_same_line_in_two_files"] += 1
+    exact = Counter()
+    for c, o in zip(cases, obss):
+        if not isinstance(o, dict) or "outputs" not in o or c["kind"] not in ("recipe", "direct"):
+            continue
+        try:
+            if c["kind"] == "recipe" and (o.get("run") != "ok" or o.get("could_not_close")):
+                continue
+            if c["kind"] == "direct" and (o.get("write") != "ok" or o.get("close") != "ok"):
+                continue
+            for fmt, ex in byte_terms(c, o["outputs"], written_rows(c, o))[1]:
+                exact["%s:%s" % (fmt, "byte-exact" if ex else "decoded-only")] += 1
+        except Exception:
+            exact["error"] += 1
     return {"kinds": dict(kinds), "output_sets": dict(outs), "formats": dict(fmts), "value_types": dict(vals),
-            "row_counts": dict(sizes), "outcomes": dict(outcomes), "features": dict(feats)}
+            "row_counts": dict(sizes), "outcomes": dict(outcomes), "features": dict(feats),
+            "artefacts_compared_as_bytes": dict(exact)}
 
 
 def violation_class(case, obs, msg):
@@ -1759,21 +2347,51 @@ def shrink(case):
             for i in range(len(case["outputs"])):
                 yield dict(case, outputs=case["outputs"][:i] + case["outputs"][i + 1:])
     elif k == "recipe":
-        ts = case["templates"]
-        for i in range(len(ts)):
-            if len(ts) > 1:
-                yield dict(case, templates=ts[:i] + ts[i + 1:])
-        for i, t in enumerate(ts):
-            if t.get("friends"):
-                yield dict(case, templates=ts[:i] + [dict(t, friends=[])] + ts[i + 1:])
-            for j in range(len(t["fields"])):
-                if t.get("upd") == t["fields"][j][0]:
+        # whole include files, macros
+        files = case.get("files", [])
+        for i, f in enumerate(files):
+            rest = files[:i] + files[i + 1:]
+            drop = lambda names: [n for n in names if n != f["name"]]
+            yield dict(case, files=[dict(g, includes=drop(g.get("includes", []))) for g in rest],
+                       includes=drop(case.get("includes", [])))
+        for where in [None] + list(range(len(files))):
+            ms = case.get("macros", []) if where is None else files[where].get("macros", [])
+            for j in range(len(ms)):
+                ms2 = ms[:j] + ms[j + 1:]
+                if where is None:
+                    yield dict(case, macros=ms2)
+                else:
+                    yield dict(case, files=files[:where] + [dict(files[where], macros=ms2)] + files[where + 1:])
+
+        def stmt_variants(sts, allow_empty):
+            for i in range(len(sts)):
+                if len(sts) > 1 or allow_empty:
+                    yield sts[:i] + sts[i + 1:]
+            for i, t in enumerate(sts):
+                if "var" in t:
                     continue
-                yield dict(case, templates=ts[:i] + [dict(t, fields=t["fields"][:j] + t["fields"][j + 1:])] + ts[i + 1:])
-            if t.get("count") and t["count"] > 1:
-                for c2 in (1, t["count"] // 2, t["count"] - 1):
-                    if 0 < c2 < t["count"]:
-                        yield dict(case, templates=ts[:i] + [dict(t, count=c2)] + ts[i + 1:])
+                put = lambda t2: sts[:i] + [t2] + sts[i + 1:]
+                if t.get("friends"):
+                    yield put(dict(t, friends=[]))
+                if t.get("include"):
+                    yield put(dict(t, include=[]))
+                for j in range(len(t["fields"])):
+                    if t.get("upd") == t["fields"][j][0]:
+                        continue
+                    yield put(dict(t, fields=t["fields"][:j] + t["fields"][j + 1:]))
+                    v = t["fields"][j][1]
+                    if v and v[0] in ("obj", "fn"):
+                        yield put(dict(t, fields=t["fields"][:j] + [[t["fields"][j][0], ["lit", "abc"]]] + t["fields"][j + 1:]))
+                if t.get("count") and t["count"] > 1:
+                    for c2 in (1, t["count"] // 2, t["count"] - 1):
+                        if 0 < c2 < t["count"]:
+                            yield put(dict(t, count=c2))
+
+        for v in stmt_variants(case["templates"], bool(files)):
+            yield dict(case, templates=v)
+        for i, f in enumerate(files):
+            for v in stmt_variants(f.get("stmts", []), True):
+                yield dict(case, files=files[:i] + [dict(f, stmts=v)] + files[i + 1:])
         if len(case["outputs"]) > 1:
             for i in range(len(case["outputs"])):
                 o2 = case["outputs"][:i] + case["outputs"][i + 1:]
